@@ -285,6 +285,7 @@ class graph(Graph):
         else:
             oldnode.misc["cut"] = cutdone
             v = super(graph, self).add_vertex(v)  # ! avoid recursion for add_edge
+            super(graph, self).add_vertex(oldnode)  # oldnode may be a slice made by the MemoryZone
             mz.write(vaddr, v)
             self.add_edge(link(oldnode, v))
             for n in oldnode.N(+1):
